@@ -66,9 +66,140 @@ def multi_object(ctx, rng):
                              replay={"cell": sc["name"], "lattice": sc["lattice"].tolist(), "positions": sc["positions"].tolist(), "numbers": [int(x) for x in sc["numbers"]], "configs": str(configs), "object": int(i), "order": k}, has_input=True)
 
 
+def fresh_symfc():
+    """a freshly imported copy of the package: every module-level cache or registry starts empty"""
+    import importlib
+    import sys as _sys
+    for k in [k for k in _sys.modules if k == "symfc" or k.startswith("symfc.")]:
+        del _sys.modules[k]
+    return importlib.import_module("symfc").Symfc
+
+
+def twin_supercells(ctx, rng):
+    """Supercells with the same number of atoms and lattice points but different translation permutations, used one after
+    the other in one process, against the second one used alone in a freshly imported package (no state shared between
+    crystals: caches keyed by shapes, class attributes, module globals)."""
+    from gens import atoms_of, base_cells, make_supercell
+
+    pairs = [(("mono_P", (2, 1, 1), True), ("mono_P", (2, 1, 1), True)), (("tri1", (2, 2, 1), False), ("tri1", (4, 1, 1), False))]
+    if not ctx.quick:
+        pairs += [(("tri2_P1", (1, 2, 1), True), ("tri2_P1", (1, 1, 2), True)), (("hcp", (2, 1, 1), True), ("hcp", (1, 1, 2), True)), (("tri1", (3, 1, 1), False), ("tri1", (1, 3, 1), True))]
+    for (ca, da, sa), (cb, db, sb) in pairs:
+        A = make_supercell(base_cells()[ca], da, rng=rng, shuffle=sa)
+        B = make_supercell(base_cells()[cb], db, rng=rng, shuffle=sb)
+        N = len(B["numbers"])
+        if len(A["numbers"]) != N:
+            continue
+        n = 40
+        dA, fA = rng.normal(size=(n, N, 3)) * 0.05, rng.normal(size=(n, N, 3))
+        dB, fB = rng.normal(size=(n, N, 3)) * 0.05, rng.normal(size=(n, N, 3))
+
+        def run(S, sc, d, f):
+            out = {}
+            for compact in (False, True):
+                o = S(atoms_of(sc), displacements=d.copy(), forces=f.copy())
+                o.compute_basis_set(orders=[2, 3])
+                usable = [k for k in (2, 3) if o.basis_set[k].basis_set.shape[1] > 0]
+                if usable != [2, 3]:
+                    usable = [2]
+                o.solve(orders=usable, is_compact_fc=compact)
+                for k in usable:
+                    out[(k, compact)] = np.array(o.force_constants[k])
+                if not compact:
+                    for k in (2, 3):
+                        b = o.basis_set[k]
+                        out[("F", k)] = np.asarray(b.compression_matrix @ b.basis_set)
+            return out
+        ctx.case({"twin_supercells": [A["name"], B["name"]], "N": N}, nontrivial=True)
+        ctx.count("twin-supercells")
+        rep = {"first": {"name": A["name"], "lattice": np.asarray(A["lattice"]).tolist(), "positions": np.asarray(A["positions"]).tolist(), "numbers": [int(z) for z in A["numbers"]]},
+               "second": {"name": B["name"], "lattice": np.asarray(B["lattice"]).tolist(), "positions": np.asarray(B["positions"]).tolist(), "numbers": [int(z) for z in B["numbers"]]}}
+        try:
+            S1 = fresh_symfc()
+            run(S1, A, dA, fA)
+            after = run(S1, B, dB, fB)
+            alone = run(fresh_symfc(), B, dB, fB)
+        except np.linalg.LinAlgError:
+            ctx.count("skipped-singular")
+            continue
+        except Exception as e:  # noqa: BLE001
+            ctx.fail("oracle", "C12/oracle/twin-supercells", f"{B['name']} after {A['name']}: {type(e).__name__}: {e}", replay=rep, has_input=True)
+            continue
+        for key in alone:
+            a, b = after.get(key), alone[key]
+            if a is None or a.shape != b.shape or not np.abs(a - b).max() <= 1e-9 * max(np.abs(b).max(), 1e-300):
+                what = f"order-{key[1]} expanded basis" if key[0] == "F" else f"fc{key[0]} ({'compact' if key[1] else 'full'})"
+                ctx.fail("oracle", "C12/oracle/twin-supercells", f"{what} of {B['name']} differs when {A['name']} (same atom and lattice-point counts) was processed before it in the same process", replay={**rep, "item": str(key)}, has_input=True)
+                break
+
+
+def solver_reuse(ctx, rng):
+    """FCSolver objects reused for several datasets (results read in between, compact/full alternated, basis sets shared by
+    several solvers) against fresh solver objects."""
+    from symfc.solvers import FCSolverO2, FCSolverO2O3, FCSolverO2O3O4, FCSolverO3, FCSolverO3O4, FCSolverO4
+    from solvers import Prepared
+
+    classes = {(2,): FCSolverO2, (3,): FCSolverO3, (4,): FCSolverO4, (2, 3): FCSolverO2O3, (3, 4): FCSolverO3O4, (2, 3, 4): FCSolverO2O3O4}
+    for cname, diag in [("mono_P", (1, 1, 1))] + ([] if ctx.quick else [("tri2_P1", (1, 1, 1)), ("tri1", (3, 1, 1))]):
+        P = Prepared(cname, diag, rng)
+        n = 3 * int(np.ceil(sum(P.nb.values()) / (3 * P.N))) + 6
+        data = [(rng.normal(size=(n, P.N, 3)) * 0.05, rng.normal(size=(n, P.N, 3))) for _ in range(3)]
+        for orders, cls in classes.items():
+            if not P.usable(orders):
+                continue
+            bs = P.basis[orders[0]] if len(orders) == 1 else [P.basis[k] for k in orders]
+
+            def as_list(x):
+                return [np.array(x)] if len(orders) == 1 else [np.array(v) for v in x]
+            try:
+                fresh = []
+                for d, f in data:
+                    s0 = cls(bs, log_level=0).solve(d.copy(), f.copy())
+                    fresh.append({"full": as_list(s0.full_fc), "compact": as_list(s0.compact_fc)})
+            except np.linalg.LinAlgError:
+                ctx.count("skipped-singular")
+                continue
+            s = cls(bs, log_level=0)
+            steps = []
+            if rng.random() < 0.5:
+                try:
+                    _ = s.full_fc, s.compact_fc          # read before any solve
+                except Exception:  # noqa: BLE001
+                    pass
+            seq = [int(i) for i in rng.integers(0, len(data), size=6)]
+            ok = True
+            for step, i in enumerate(seq):
+                d, f = data[i]
+                s.solve(d.copy(), f.copy())
+                flavours = ["compact", "full"] if step % 2 == 0 else ["full", "compact"]
+                for fl in flavours[: 1 + (step % 3 != 1)]:
+                    raw = s.compact_fc if fl == "compact" else s.full_fc
+                    steps.append((i, fl))
+                    if raw is None:
+                        ctx.fail("oracle", "C12/oracle/solver-reuse", f"{P.sc['name']} {cls.__name__}: after the sequence {steps} (results read once before the first solve) {fl}_fc is None",
+                                 replay={**P.describe(), "solver": cls.__name__, "sequence": [list(x) for x in steps]}, has_input=True)
+                        ok = False
+                        break
+                    got = as_list(raw)
+                    for k, a, b in zip(orders, got, fresh[i][fl]):
+                        if a.shape != b.shape or not np.abs(a - b).max() <= 1e-9 * max(np.abs(b).max(), 1e-300):
+                            ctx.fail("oracle", "C12/oracle/solver-reuse", f"{P.sc['name']} {cls.__name__}: after the sequence {steps} the {fl} fc{k} of the reused solver differs from a fresh solver's for dataset {i}",
+                                     replay={**P.describe(), "solver": cls.__name__, "sequence": [list(x) for x in steps]}, has_input=True)
+                            ok = False
+                            break
+                    if not ok:
+                        break
+                if not ok:
+                    break
+            ctx.case({"solver_reuse": cls.__name__, "cell": P.sc["name"], "sequence": seq}, nontrivial=True)
+            ctx.count("solver-reuse")
+
+
 def check(ctx):
     rng = np.random.default_rng(ctx.seed)
     multi_object(ctx, rng)
+    twin_supercells(ctx, np.random.default_rng(ctx.seed + 77))
+    solver_reuse(ctx, np.random.default_rng(ctx.seed + 78))
     ctx.rule = ("random histories (length 8 quick / 12) over set-displacements / set-forces / hand-over of shared basis sets / compute / solve / run, mostly valid, "
                 "on two small crystals (with and without cutoff), basis sets shared between all objects of a world; non-trivial: history contains a solve or run")
     worlds = [World(rng, "mono_P"), World(rng, "tri2_Pm1", cutoff={3: 4.0}, n_snaps=(14, 14, 18))]
